@@ -18,11 +18,11 @@ def parsePath : List String → Option (PathObs × List String)
   | _ => none
 
 def parseSnap : List String → Option Snap
-  | [id, created, fmt, ver, nb, ns, nrec, tree] => do
+  | [id, created, updated, fmt, ver, nb, ns, nrec, tree] => do
     let f ← parseStr fmt
     let v ← parseListOf parseInt ver
     let b ← parseNat nb; let s ← parseNat ns; let r ← parseNat nrec
-    pure { fileId := id, created := created, format := f, version := v, blocks := b, sections := s, records := r, tree := tree }
+    pure { fileId := id, created := created, updated := updated, format := f, version := v, blocks := b, sections := s, records := r, tree := tree }
   | _ => none
 
 def Snap.content (s : Snap) : String := s!"{s.blocks} {s.sections} {s.records} {s.tree}"
@@ -118,6 +118,10 @@ def handle (ds : DState) (op : String) (args impl : List String) : Option (DStat
           fin { clear st with disk := .h5 { r with version := v, format := f, id := i } c, planted := pl } (.ok s!"prep.hdr")
         | _, _, _ => fin st (.malformed "fm_prep hdr tokens")
       | _ => fin st (.malformed "fm_prep hdr without a file")
+    | ["settime", a, t] =>
+      -- a benign edit: the file stays what the library wrote, with an old time stamp that a later open must not refresh
+      let upd (s : Snap) : Snap := if a == "created_at" then { s with created := t } else if a == "updated_at" then { s with updated := t } else s
+      fin { st with closedSnap := st.closedSnap.map upd, pathBefore := none } (.ok "prep.settime")
     | ["rmgroup", g] =>
       match st.disk with
       | .h5 r _ =>
